@@ -396,6 +396,254 @@ def rule_aquarium(h: int, w: int, blocks: List[List[Cell]], clue_row: List[int],
     return ok
 
 
+def rule_yajilin(h: int, w: int, problem: List[List[str]]) -> Callable[[Sequence[bool]], bool]:
+    """answer = loop edges between cell centres (frame (h-1) x (w-1)), then the black-cell grid"""
+    edges = frame_edges(h - 1, w - 1)
+    m = len(edges)
+
+    def ok(pat: Sequence[bool]) -> bool:
+        loop, black = pat[:m], grid_of(h, w, pat[m:])
+        if not single_loop_or_empty(edges, loop):
+            return False
+        on_loop = {c for e, b in zip(edges, loop) if b for c in e}
+        for c in cells(h, w):
+            clue = problem[c[0]][c[1]]
+            if black[c] and any(black[d] for d in nb4(h, w, c)):
+                return False
+            if clue != "..":
+                if black[c] or c in on_loop:
+                    return False
+                if clue == "??":
+                    continue
+                d, k = clue[0], int(clue[1:])
+                y, x = c
+                seen = {"^": [(yy, x) for yy in range(0, y)], "v": [(yy, x) for yy in range(y + 1, h)],
+                        "<": [(y, xx) for xx in range(0, x)], ">": [(y, xx) for xx in range(x + 1, w)]}.get(d)
+                if seen is not None and sum(black[q] for q in seen) != k:
+                    return False
+            elif black[c] == (c in on_loop):
+                return False  # every other cell is either black or on the loop, not both
+        return True
+
+    return ok
+
+
+def rule_putteria(h: int, w: int, blocks: List[List[Cell]]) -> Callable[[Sequence[bool]], bool]:
+    size = {c: len(b) for b in blocks for c in b}
+
+    def ok(pat: Sequence[bool]) -> bool:
+        num = grid_of(h, w, pat)
+        if any(sum(num[c] for c in b) != 1 for b in blocks):
+            return False
+        on = [c for c in cells(h, w) if num[c]]
+        for i, a in enumerate(on):
+            for b in on[i + 1:]:
+                if abs(a[0] - b[0]) + abs(a[1] - b[1]) == 1:
+                    return False
+                if (a[0] == b[0] or a[1] == b[1]) and size[a] == size[b]:
+                    return False
+        return True
+
+    return ok
+
+
+def rule_fillomino(h: int, w: int, problem: List[List[int]], checkered: bool = False) -> Callable[[Sequence[int]], bool]:
+    def ok(pat: Sequence[int]) -> bool:
+        val = {(y, x): pat[y * w + x] for y in range(h) for x in range(w)}
+        for c in cells(h, w):
+            if problem[c[0]][c[1]] >= 1 and val[c] != problem[c[0]][c[1]]:
+                return False
+        comp_of: Dict[Cell, int] = {}
+        comps: List[Set[Cell]] = []
+        for v in set(val.values()):
+            for comp in components(h, w, {c for c in cells(h, w) if val[c] == v}):
+                if len(comp) != v:
+                    return False
+                for c in comp:
+                    comp_of[c] = len(comps)
+                comps.append(comp)
+        if checkered:
+            # the blocks can be coloured with two colours so that blocks sharing an edge differ
+            adj: Dict[int, Set[int]] = {i: set() for i in range(len(comps))}
+            for c in cells(h, w):
+                for d in nb4(h, w, c):
+                    if comp_of[c] != comp_of[d]:
+                        adj[comp_of[c]].add(comp_of[d])
+            colour: Dict[int, int] = {}
+            for s0 in adj:
+                if s0 in colour:
+                    continue
+                colour[s0] = 0
+                st = [s0]
+                while st:
+                    u = st.pop()
+                    for v2 in adj[u]:
+                        if v2 not in colour:
+                            colour[v2] = 1 - colour[u]
+                            st.append(v2)
+                        elif colour[v2] == colour[u]:
+                            return False
+        return True
+
+    return ok
+
+
+def _tetromino_kind(cs: Set[Cell]) -> Optional[str]:
+    """L, I, T, S (mirror images and rotations identified) or O; None if the four cells are not one tetromino"""
+    if len(cs) != 4 or len(components(10 ** 6, 10 ** 6, set(cs))) != 1:
+        return None
+    ys, xs = sorted({y for y, _ in cs}), sorted({x for _, x in cs})
+    hh, ww = ys[-1] - ys[0] + 1, xs[-1] - xs[0] + 1
+    if {hh, ww} == {1, 4}:
+        return "I"
+    if hh == ww == 2:
+        return "O"
+    # 2x3 bounding box: by the number of neighbours of the best connected cell and the row profile
+    deg = sorted(sum(1 for d in ((y - 1, x), (y + 1, x), (y, x - 1), (y, x + 1)) if d in cs) for (y, x) in cs)
+    if deg == [1, 1, 1, 3]:
+        return "T"
+    if deg == [1, 1, 2, 2]:
+        # L has three cells in one line, S has not
+        lines = [sum(1 for (y, x) in cs if y == yy) for yy in ys] + [sum(1 for (y, x) in cs if x == xx) for xx in xs]
+        return "L" if 3 in lines else "S"
+    return None
+
+
+def rule_lits(h: int, w: int, blocks: List[List[Cell]]) -> Callable[[Sequence[bool]], bool]:
+    block_of = {c: i for i, b in enumerate(blocks) for c in b}
+
+    def ok(pat: Sequence[bool]) -> bool:
+        black = grid_of(h, w, pat)
+        kinds = []
+        for b in blocks:
+            k = _tetromino_kind({c for c in b if black[c]})
+            if k is None or k == "O":
+                return False
+            kinds.append(k)
+        for y in range(h - 1):
+            for x in range(w - 1):
+                if black[(y, x)] and black[(y + 1, x)] and black[(y, x + 1)] and black[(y + 1, x + 1)]:
+                    return False
+        if not connected(h, w, {c for c in cells(h, w) if black[c]}):
+            return False
+        for c in cells(h, w):
+            for d in nb4(h, w, c):
+                if black[c] and black[d] and block_of[c] != block_of[d] and kinds[block_of[c]] == kinds[block_of[d]]:
+                    return False
+        return True
+
+    return ok
+
+
+def rule_building(n: int, up: List[int], dw: List[int], lf: List[int], rg: List[int]) -> Callable[[Sequence[int]], bool]:
+    def visible(line: List[int]) -> int:
+        best, cnt = 0, 0
+        for v in line:
+            if v > best:
+                best, cnt = v, cnt + 1
+        return cnt
+
+    def ok(pat: Sequence[int]) -> bool:
+        g = [[pat[y * n + x] for x in range(n)] for y in range(n)]
+        for i in range(n):
+            if sorted(g[i]) != list(range(1, n + 1)) or sorted(g[y][i] for y in range(n)) != list(range(1, n + 1)):
+                return False
+            col = [g[y][i] for y in range(n)]
+            if up[i] >= 1 and visible(col) != up[i]:
+                return False
+            if dw[i] >= 1 and visible(col[::-1]) != dw[i]:
+                return False
+            if lf[i] >= 1 and visible(g[i]) != lf[i]:
+                return False
+            if rg[i] >= 1 and visible(g[i][::-1]) != rg[i]:
+                return False
+        return True
+
+    return ok
+
+
+def rule_doppelblock(n: int, clue_row: List[int], clue_column: List[int]) -> Callable[[Sequence[int]], bool]:
+    """answer: 0 = black cell, k >= 1 = the number k"""
+
+    def line_ok(line: List[int], clue: int) -> bool:
+        if sorted(line) != [0, 0] + list(range(1, n - 1)):
+            return False
+        a, b = [i for i, v in enumerate(line) if v == 0]
+        return clue < 0 or sum(line[a + 1:b]) == clue
+
+    def ok(pat: Sequence[int]) -> bool:
+        g = [[pat[y * n + x] for x in range(n)] for y in range(n)]
+        return all(line_ok(g[i], clue_row[i]) and line_ok([g[y][i] for y in range(n)], clue_column[i]) for i in range(n))
+
+    return ok
+
+
+def decide_sudoku(a: tuple, kw: dict, ids: List[int], posted: "_Posted", ext: Extender, label: str) -> Tuple[str, str, int]:
+    """the answer space (size^(size^2)) cannot be enumerated; instead
+    (sound) every posted constraint is a consequence of the rules: an all-different over cells of one row, column or block, or a
+            given digit;
+    (complete) every way of breaking a rule is refuted whatever the other cells are: for each pair of cells in a common row, column
+            or block and each digit, some posted constraint is already false under just those two values; likewise a cell that
+            contradicts its given digit."""
+    problem = a[0]
+    n = kw.get("n", a[1] if len(a) > 1 else 3)
+    size = n * n
+    if len(ids) != size * size:
+        return "bad", f"{label}: the answer has {len(ids)} variables, a {size}x{size} grid has {size * size}", 0
+    cell_of = {vid: (k // size, k % size) for k, vid in enumerate(ids)}
+    for vid in ids:
+        if posted.domains()[vid] != list(range(1, size + 1)):
+            return "bad", f"{label}: cell {cell_of[vid]} ranges over {posted.domains()[vid][:1]}..{posted.domains()[vid][-1:]}, digits are 1..{size}", 0
+    groups = [{(y, x) for x in range(size)} for y in range(size)] + [{(y, x) for y in range(size)} for x in range(size)]
+    groups += [{(by * n + dy, bx * n + dx) for dy in range(n) for dx in range(n)} for by in range(n) for bx in range(n)]
+    k3 = ext.k3
+    # sound
+    for c in posted.constraints():
+        acc: Set[int] = set()
+        from .encodings import _vars_of
+        _vars_of(c, acc)
+        if not acc <= set(ids):
+            return "undecided", f"{label}: a posted constraint mentions variables outside the answer grid", 0
+        cs = {cell_of[v] for v in acc}
+        op = c.attrs["op"].name.split(".")[-1] if hasattr(c, "attrs") else ""
+        if op == "ALLDIFF" and all(hasattr(o, "attrs") and o.attrs["op"].name.endswith("VAR") for o in c.attrs["operands"]):
+            if not any(cs <= g for g in groups):
+                return "bad", f"{label}: an all-different constraint spans cells {sorted(cs)} that share no row, column or block", 0
+            continue
+        if len(cs) == 1:
+            (y, x), = cs
+            vid = next(iter(acc))
+            allowed = [d for d in range(1, size + 1) if k3.ev(c, {vid: d}) is True]
+            if problem[y][x] >= 1 and allowed == [problem[y][x]]:
+                continue
+            return "bad", f"{label}: a posted constraint restricts cell {(y, x)} to {allowed} but the given digit there is {problem[y][x]}", 0
+        return "undecided", f"{label}: a posted constraint is neither an all-different of cells nor a given digit", 0
+    # complete
+    n_chk = 0
+    pos = {c: vid for vid, c in cell_of.items()}
+    for g in groups:
+        cells_g = sorted(g)
+        for i, c1 in enumerate(cells_g):
+            for c2 in cells_g[i + 1:]:
+                n_chk += 1
+                d = 1 + (n_chk % size)
+                part = {pos[c1]: d, pos[c2]: d}
+                if not any(k3.ev(c, part) is False for c in posted.constraints()):
+                    return "bad", (f"{label}: cells {c1} and {c2} share a row, column or block but may both hold {d}: "
+                                   "no posted constraint is violated by that alone"), n_chk
+    for y in range(size):
+        for x in range(size):
+            if problem[y][x] >= 1:
+                wrong = problem[y][x] % size + 1
+                n_chk += 1
+                if not any(k3.ev(c, {pos[(y, x)]: wrong}) is False for c in posted.constraints()):
+                    return "bad", f"{label}: cell {(y, x)} may hold {wrong} although the given digit is {problem[y][x]}", n_chk
+    return "ok", label, n_chk
+
+
+decide_sudoku.custom = True  # type: ignore[attr-defined]
+
+
 # ------------------------------------------------------------------------------------------
 # instances
 # ------------------------------------------------------------------------------------------
@@ -429,7 +677,9 @@ def instances(tier: str) -> List[Tuple[str, tuple, dict, Callable[..., Callable[
     I += [("akari", (2, 3, [[W_, W_, W_], [W_, -1, W_]]), {}, rule_akari),
           ("akari", (3, 3, [[W_, W_, W_], [W_, 1, W_], [W_, W_, W_]]), {}, rule_akari),
           ("akari", (3, 2, [[0, W_], [W_, W_], [W_, 2]]), {}, rule_akari),
-          ("akari", (1, 4, [[W_, -1, W_, W_]]), {}, rule_akari)]
+          ("akari", (1, 4, [[W_, -1, W_, W_]]), {}, rule_akari),
+          ("akari", (3, 2, [[W_, -1], [W_, W_], [W_, W_]]), {}, rule_akari),   # a cell lit only from the last row / last column
+          ("akari", (2, 3, [[W_, W_, W_], [-1, W_, W_]]), {}, rule_akari)]
     if deep:
         I += [("akari", (3, 3, [[W_, -1, W_], [W_, W_, W_], [2, W_, W_]]), {}, rule_akari),
               ("akari", (3, 3, [[W_, W_, 1], [W_, W_, W_], [0, W_, W_]]), {}, rule_akari)]
@@ -441,13 +691,18 @@ def instances(tier: str) -> List[Tuple[str, tuple, dict, Callable[..., Callable[
     # norinori
     I += [("norinori", (2, 3, [[(0, 0), (0, 1), (1, 0)], [(0, 2), (1, 1), (1, 2)]]), {}, rule_norinori),
           ("norinori", (3, 3, [[(0, 0), (0, 1), (0, 2), (1, 0)], [(1, 1), (1, 2), (2, 0), (2, 1), (2, 2)]]), {}, rule_norinori),
-          ("norinori", (1, 4, [[(0, 0), (0, 1)], [(0, 2), (0, 3)]]), {}, rule_norinori)]
+          ("norinori", (1, 4, [[(0, 0), (0, 1)], [(0, 2), (0, 3)]]), {}, rule_norinori),
+          ("norinori", (1, 5, [[(0, 0), (0, 1), (0, 2), (0, 3), (0, 4)]]), {}, rule_norinori),   # room for two dominoes in one block
+          ("norinori", (2, 4, [[(0, 0), (0, 1), (0, 2), (0, 3), (1, 3)], [(1, 0), (1, 1), (1, 2)]]), {}, rule_norinori)]
     # yinyang
     I += [("yinyang", (2, 3, [[0, 0, 0], [0, 0, 0]]), {}, rule_yinyang),
           ("yinyang", (3, 3, [[1, 0, 0], [0, 0, 0], [0, 0, 2]]), {}, rule_yinyang),
-          ("yinyang", (3, 2, [[0, 2], [0, 0], [1, 0]]), {}, rule_yinyang)]
+          ("yinyang", (3, 2, [[0, 2], [0, 0], [1, 0]]), {}, rule_yinyang),
+          # 3x4 is the smallest board on which a colour can be enclosed without touching the border
+          ("yinyang", (3, 4, [[0] * 4] * 3), {}, rule_yinyang)]
     if deep:
-        I += [("yinyang", (1, 4, [[0, 0, 0, 0]]), {}, rule_yinyang), ("yinyang", (3, 3, [[0] * 3] * 3), {}, rule_yinyang)]
+        I += [("yinyang", (1, 4, [[0, 0, 0, 0]]), {}, rule_yinyang), ("yinyang", (3, 3, [[0] * 3] * 3), {}, rule_yinyang),
+              ("yinyang", (4, 3, [[0] * 3] * 4), {}, rule_yinyang)]
     # creek
     I += [("creek", (2, 2, [[-1, -1, -1], [-1, 2, -1], [-1, -1, 0]]), {}, rule_creek),
           ("creek", (2, 3, [[0, -1, -1, 1], [-1, -1, 2, -1], [1, -1, -1, -1]]), {}, rule_creek),
@@ -475,6 +730,46 @@ def instances(tier: str) -> List[Tuple[str, tuple, dict, Callable[..., Callable[
     I += [("aquarium", (2, 3, [[(0, 0), (1, 0), (1, 1)], [(0, 1), (0, 2), (1, 2)]], [-1, -1], [-1, -1, -1]), {}, rule_aquarium),
           ("aquarium", (2, 3, [[(0, 0), (1, 0), (1, 1), (1, 2), (0, 2)], [(0, 1)]], [-1, -1], [-1, -1, -1]), {}, rule_aquarium),
           ("aquarium", (3, 2, [[(0, 0), (0, 1)], [(1, 0), (2, 0), (2, 1)], [(1, 1)]], [1, -1, 2], [-1, 2]), {}, rule_aquarium)]
+    # yajilin (answer: loop edges + black cells)
+    I += [("yajilin", (2, 3, [["..", "..", ".."], ["..", "..", ".."]]), {}, rule_yajilin),
+          ("yajilin", (2, 3, [[">1", "..", ".."], ["..", "..", ".."]]), {}, rule_yajilin),
+          ("yajilin", (3, 2, [["..", "v1"], ["..", ".."], ["..", ".."]]), {}, rule_yajilin),
+          ("yajilin", (2, 2, [["..", ".."], ["..", "??"]]), {}, rule_yajilin),
+          ("yajilin", (2, 3, [[">0", "..", ".."], ["..", "..", ".."]]), {}, rule_yajilin),
+          # boards without room for a loop: every free cell must be black, which makes each clue rule visible on its own
+          ("yajilin", (1, 1, [["??"]]), {}, rule_yajilin),
+          ("yajilin", (1, 3, [[">1", "??", ".."]]), {}, rule_yajilin),
+          ("yajilin", (1, 3, [["..", "??", "<1"]]), {}, rule_yajilin),
+          ("yajilin", (3, 1, [["v1"], ["??"], [".."]]), {}, rule_yajilin),
+          ("yajilin", (3, 1, [[".."], ["??"], ["^1"]]), {}, rule_yajilin)]
+    if deep:
+        I += [("yajilin", (2, 4, [["..", "..", "..", ".."], ["..", "..", "..", ".."]]), {}, rule_yajilin),
+              ("yajilin", (3, 2, [["..", ".."], ["..", ".."], ["^0", ".."]]), {}, rule_yajilin),
+              ("yajilin", (2, 3, [["..", "..", "<2"], ["..", "..", ".."]]), {}, rule_yajilin)]
+    # putteria
+    I += [("putteria", (2, 3, [[(0, 0), (0, 1)], [(0, 2), (1, 2)], [(1, 0), (1, 1)]]), {}, rule_putteria),
+          ("putteria", (3, 3, [[(0, 0), (0, 1), (0, 2)], [(1, 0), (1, 1), (1, 2)], [(2, 0), (2, 1), (2, 2)]]), {}, rule_putteria),
+          ("putteria", (3, 2, [[(0, 0)], [(0, 1), (1, 1)], [(1, 0), (2, 0)], [(2, 1)]]), {}, rule_putteria)]
+    # fillomino (integer answers)
+    I += [("fillomino", (2, 2, [[0, 0], [0, 0]]), {}, rule_fillomino),
+          ("fillomino", (1, 3, [[0, 2, 0]]), {}, rule_fillomino),
+          ("fillomino", (2, 2, [[0, 0], [0, 3]]), {"checkered": True}, rule_fillomino)]
+    if deep:
+        I += [("fillomino", (2, 3, [[0, 0, 0], [0, 0, 0]]), {}, rule_fillomino), ("fillomino", (1, 4, [[0, 0, 0, 0]]), {"checkered": True}, rule_fillomino)]
+    # lits: two rooms of six cells side by side / stacked, and an L-shaped room
+    I += [("lits", (3, 4, [[(y, x) for y in range(3) for x in range(2)], [(y, x) for y in range(3) for x in range(2, 4)]]), {}, rule_lits),
+          ("lits", (4, 3, [[(y, x) for y in range(2) for x in range(3)], [(y, x) for y in range(2, 4) for x in range(3)]]), {}, rule_lits),
+          ("lits", (2, 5, [[(0, 0), (0, 1), (0, 2), (0, 3), (1, 0)], [(0, 4), (1, 1), (1, 2), (1, 3), (1, 4)]]), {}, rule_lits)]
+    # building (skyscrapers), order 3
+    I += [("building", (3, [0, 0, 0], [0, 0, 0], [0, 0, 0], [0, 0, 0]), {}, rule_building),
+          ("building", (3, [1, 0, 2], [0, 3, 0], [2, 0, 0], [0, 0, 1]), {}, rule_building),
+          ("building", (3, [0, 0, 3], [0, 1, 0], [0, 2, 0], [3, 0, 0]), {}, rule_building)]
+    # doppelblock, order 3 (numbers 1..1)
+    I += [("doppelblock", (3, [-1, -1, -1], [-1, -1, -1]), {}, rule_doppelblock),
+          ("doppelblock", (3, [1, -1, 0], [-1, 0, 1]), {}, rule_doppelblock)]
+    # sudoku: decided through constraint-wise soundness and pairwise refutation (all boards of that order)
+    I += [("sudoku", ([[1, 0, 0, 2], [0, 0, 0, 0], [0, 0, 0, 0], [3, 0, 0, 4]],), {"n": 2}, decide_sudoku),
+          ("sudoku", ([[0] * 9 for _ in range(8)] + [[0, 0, 0, 0, 0, 0, 0, 0, 7]],), {"n": 3}, decide_sudoku)]
     return I
 
 
@@ -516,16 +811,23 @@ def _job(args) -> Tuple[str, str, int]:
         w = SolverWorld(repo, name, primitives=True)
         w.cw.ev.strict_index = False
         res = w.cw.call(fn, *a, **kw)
-        if not isinstance(res, tuple) or len(res) != 2 or len(w.solvers) != 1:
+        if not isinstance(res, tuple) or len(res) < 2 or len(w.solvers) != 1:
             return "undecided", f"{label}: unexpected result shape", 0
-        vs = variables_of(w, res[1])
-        if vs is None:
-            return "undecided", f"{label}: the answer is not made of variables", 0
+        vs: List[Any] = []
+        for cont in res[1:]:
+            part = variables_of(w, cont)
+            if part is None:
+                return "undecided", f"{label}: the answer is not made of variables", 0
+            vs += part
         ids = [v.attrs["id"] for v in vs]
+        posted = _Posted(w.solvers[0])
+        ext = Extender(posted, 100.0 if tier != "quick" else 40.0)
+        if getattr(rule, "custom", False):
+            return rule(a, kw, ids, posted, ext, label)
         ok = rule(*a, **kw)
-        ext = Extender(_Posted(w.solvers[0]), 100.0 if tier != "quick" else 40.0)
+        doms = [posted.domains()[i] for i in ids]
         n = 0
-        for pat in itertools.product([False, True], repeat=len(ids)):
+        for pat in itertools.product(*doms):
             n += 1
             got = ext.sat(dict(zip(ids, pat)))
             want = ok(pat)
@@ -546,8 +848,10 @@ def _brief(a: Any) -> str:
     return s if len(s) < 150 else s[:147] + "..."
 
 
-def _show(pat: Sequence[bool]) -> str:
-    return "".join("#" if b else "." for b in pat)
+def _show(pat: Sequence[Any]) -> str:
+    if all(isinstance(b, bool) for b in pat):
+        return "".join("#" if b else "." for b in pat)
+    return " ".join(("#" if b else ".") if isinstance(b, bool) else str(b) for b in pat)
 
 
 def run(repo: Repo, rep: Report) -> None:
@@ -572,6 +876,6 @@ def run(repo: Repo, rep: Report) -> None:
         else:
             rep.ok("PZ-X", f"{fn}: admitted answers == rule-obeying grids on {len(rs)} instances ({sum(r[2] for r in rs)} answers decided)",
                    points=sum(r[2] for r in rs))
-    rep.floor("PZ-X", 8)
+    rep.floor("PZ-X", 10)
     rep.assume("PZ-X covers " + ", ".join(sorted(per)) + " on boards of at most 12 answer variables; the other bundled solvers' rules "
                "(and all larger boards) are compared with nothing")
